@@ -57,6 +57,7 @@ type Op struct {
 	ViaRpc     bool         `json:"viarpc,omitempty"`     // root upsert delivered as the input of rpc zzin whose handler upserts it into the store
 	Tree       *model.Tree  `json:"tree,omitempty"`       // payload at a root/container/list-entry entry point
 	List       *model.ListT `json:"list,omitempty"`       // payload at a list entry point
+	Where      string       `json:"where,omitempty"`      // Into direction: the source selection is constrained by where=<this> (an expression that holds for every entry)
 	Leaf       string       `json:"leaf,omitempty"`       // the edit is rooted at this leaf of the node At addresses (a leaf selection); the payload is At-level and holds that leaf
 	Paths      []model.Path `json:"paths,omitempty"`      // batch-delete: containers, none inside another; all are selected first (Find), then deleted in this order through those selections
 	Keys       [][]string   `json:"keys,omitempty"`       // sweep: At is a list; its entries are walked once (First/Next), then the ones with these keys are deleted, in this order, through the selections the walk produced
@@ -494,6 +495,12 @@ func ExecInto(env *Env, st store.Store, o Op, full *model.Tree, ss *simnode.Sess
 	if err != nil || ssel == nil {
 		res.Err = fmt.Errorf("harness: payload path %s does not resolve in source: %v", o.At, err)
 		return
+	}
+	if o.Where != "" {
+		if ssel, err = ssel.Constrain("where=" + o.Where); err != nil || ssel == nil {
+			res.Err = fmt.Errorf("harness: constraining the source selection: %v", err)
+			return
+		}
 	}
 	opStart(ss)
 	switch o.Kind {
